@@ -1004,22 +1004,25 @@ func (c PrepareCallInstr) execute(env *Zlisp) error {
 }
 
 // TailCallInstr ends a function whose last form calls a function of the
-// same name. The arguments are on the data stack. If the name still refers
-// to the running function, its scopes are popped and execution restarts at
-// the top of the function; if the name has been re-bound to another
-// function (an inner defn, a parameter, a local) this is an ordinary call.
+// same name. It does what CallExprInstr does, in the same order: the callee
+// is looked up, then the arguments are evaluated as that callee wants them.
+// If the callee is the running function, the call is checked as CallFunction
+// checks it, the function's scopes are popped and execution restarts at the
+// top of the function; if the name has been re-bound (an inner defn, a
+// parameter, a local, a value that is not a function) this is an ordinary
+// call.
 type TailCallInstr struct {
 	sym    *SexpSymbol
-	nargs  int
+	args   []Sexp
 	scopes int
 }
 
 func (c TailCallInstr) InstrString() string {
-	return fmt.Sprintf("tail-call %s %d", c.sym.name, c.nargs)
+	return fmt.Sprintf("tail-call %s %d", c.sym.name, len(c.args))
 }
 
 func (c TailCallInstr) Execute(env *Zlisp) error {
-	funcobj, err, _ := env.LexicalLookupSymbol(c.sym, nil)
+	funcobj, err := env.EvalCallExpression(c.sym)
 	if err != nil {
 		return err
 	}
@@ -1028,14 +1031,30 @@ func (c TailCallInstr) Execute(env *Zlisp) error {
 	// merely to another closure made from the same definition.
 	self := isFun && !f.user && f == env.curfunc
 	if !self {
-		return CallInstr{c.sym, c.nargs}.Execute(env)
+		return CallExprInstr{callee: c.sym, args: c.args}.Execute(env)
+	}
+	startingDataStackSize := env.datastack.Size()
+	fail := func(err error) error {
+		env.datastack.TruncateToSize(startingDataStackSize)
+		return err
+	}
+	if err := env.PrepareCallExprArgs(f, c.args); err != nil {
+		return fail(err)
+	}
+	nargs := len(c.args)
+	// as CallFunction does: named arguments are put in declaration
+	// order and the declared input types are checked.
+	if f.inputTypes != nil && !f.varargs {
+		if err := env.FunctionCallNameTypeCheck(f, &nargs); err != nil {
+			return fail(err)
+		}
 	}
 	if f.varargs {
-		if err := env.wrangleOptargs(f.nargs, c.nargs); err != nil {
-			return err
+		if err := env.wrangleOptargs(f.nargs, nargs); err != nil {
+			return fail(err)
 		}
-	} else if c.nargs != f.nargs {
-		return fmt.Errorf("%s expected %d arguments, got %d", f.name, f.nargs, c.nargs)
+	} else if nargs != f.nargs {
+		return fail(fmt.Errorf("%s expected %d arguments, got %d", f.name, f.nargs, nargs))
 	}
 	for i := 0; i < c.scopes; i++ {
 		if err := env.linearstack.PopScope(); err != nil {
